@@ -74,12 +74,20 @@ type verifC05Env struct {
 	keys, vals             [][]byte
 	cache                  *verifC05Cacher
 	req                    *verifC05Requests
+	hardCap                int
 }
 
 func verifC05Setup() *verifC05Env {
 	src, srcDB := verifNewTrieLevel(5)
 	e := &verifC05Env{srcDB: srcDB, keys: [][]byte{{0x00, 0x10}, {0x00, 0x20}, {0x01, 0x20}},
 		vals: [][]byte{verifBytes("v0", 1), verifBytes("v1", 1), verifBytes("v2", 1)}, target: &verifDB{}, cache: &verifC05Cacher{}, req: &verifC05Requests{}}
+	if verifParam("shape") == 1 {
+		// a root branch over two branches with two leaves each: two nodes with undelivered children can be
+		// processed in one pass (the hard cap for missing nodes then comes into play)
+		e.keys = [][]byte{{0x11}, {0x21}, {0x12}, {0x22}}
+		e.vals = append(e.vals, verifBytes("v3", 1))
+	}
+	e.hardCap = 1 + verifChoice("hardCap", 2)*100
 	for i := range e.keys {
 		_ = src.Update(e.keys[i], e.vals[i])
 	}
@@ -96,7 +104,7 @@ func verifC05Setup() *verifC05Env {
 
 func (e *verifC05Env) args() ArgTrieSyncer {
 	return ArgTrieSyncer{Marshalizer: &marshal.GogoProtoMarshalizer{}, Hasher: blake2b.NewBlake2b(), DB: e.target, RequestHandler: e.req,
-		InterceptedNodes: e.cache, Topic: "t", TrieSyncStatistics: verifC05Stats{}, TimeoutBetweenTrieNodesCommits: time.Hour, MaxHardCapForMissingNodes: 1 + verifChoice("hardCap", 2)*100}
+		InterceptedNodes: e.cache, Topic: "t", TrieSyncStatistics: verifC05Stats{}, TimeoutBetweenTrieNodesCommits: time.Hour, MaxHardCapForMissingNodes: e.hardCap}
 }
 
 // run drives the syncer round by round (one round = one pass of the loop of StartSyncing): each of the first
@@ -137,7 +145,12 @@ func (e *verifC05Env) run(step func() (bool, error)) {
 		}
 		previous = asked
 	}
-	verifAssert(synced, "the sync completes once everything asked for is delivered")
+	if !synced {
+		// completion is only expected when the hard cap admits all children of one node at once (a cap of 1 makes
+		// the first-generation syncer ask for the same two children forever: a liveness matter, not part of C05)
+		verifAssert(e.hardCap < 16, "the sync completes once everything asked for is delivered")
+		verifReach("not completed within the rounds")
+	}
 	// every entry of the target database is stored under the hash of its own content
 	h := blake2b.NewBlake2b()
 	for i := range e.target.keys {
@@ -145,6 +158,9 @@ func (e *verifC05Env) run(step func() (bool, error)) {
 	}
 	// the target database alone recreates the trie: same root, same contents
 	tr, _ := NewTrie(&verifTSM{db: e.target}, &marshal.GogoProtoMarshalizer{}, blake2b.NewBlake2b(), 5)
+	if !synced {
+		return
+	}
 	rec, err := tr.Recreate(e.root)
 	verifAssert(err == nil && rec != nil, "the synced trie can be recreated from the local storage alone")
 	if err == nil && rec != nil {
